@@ -21,6 +21,20 @@ impl log::Log for Nop {
 }
 static NOP: Nop = Nop;
 
+// SCV_LOGGER=1: a logger at Debug level that formats every record and throws it away - the arguments of the library's log
+// statements are then evaluated, as they are in an application that called SmartCalc::initialize()
+struct Sink;
+impl log::Log for Sink {
+    fn enabled(&self, _: &log::Metadata) -> bool {
+        true
+    }
+    fn log(&self, record: &log::Record) {
+        let _ = format!("{}", record.args());
+    }
+    fn flush(&self) {}
+}
+static SINK: Sink = Sink;
+
 thread_local! {
     static LAST_PANIC: RefCell<Option<(String, String)>> = RefCell::new(None);
 }
@@ -364,8 +378,13 @@ fn take_panic() -> Value {
 }
 
 pub fn main() {
-    let _ = log::set_logger(&NOP);
-    log::set_max_level(log::LevelFilter::Off);
+    if std::env::var("SCV_LOGGER").map(|v| v == "1").unwrap_or(false) {
+        let _ = log::set_logger(&SINK);
+        log::set_max_level(log::LevelFilter::Debug);
+    } else {
+        let _ = log::set_logger(&NOP);
+        log::set_max_level(log::LevelFilter::Off);
+    }
     std::panic::set_hook(Box::new(|info| {
         let loc = info.location().map(|l| format!("{}:{}", l.file(), l.line())).unwrap_or_else(|| "?".into());
         let msg = if let Some(s) = info.payload().downcast_ref::<&str>() {
@@ -392,7 +411,9 @@ pub fn main() {
             Ok(case) => run_case(&mut st, &case),
             Err(e) => json!({"outcome": "toolerror", "why": format!("bad case json: {}", e)}),
         };
-        log::set_max_level(log::LevelFilter::Off);
+        if !std::env::var("SCV_LOGGER").map(|v| v == "1").unwrap_or(false) {
+            log::set_max_level(log::LevelFilter::Off);
+        }
         let mut o = stdout.lock();
         let _ = writeln!(o, "@@{}", obs);
         let _ = o.flush();
